@@ -179,7 +179,7 @@ def run_tlc(tier):
     if not thorough:
         # launched sessions exhaustively; sessions to replay: seeded random behaviours of the same module
         jobs = {"Reloc_Fq.cfg": dict(workers=4),
-                "Reloc_G.cfg": dict(workers=1, simulate=2500, depth=60, seed_arg=vlib.seed())}
+                "Reloc_G.cfg": dict(workers=1, simulate=1500, depth=60, seed_arg=vlib.seed())}
     else:
         jobs = {"Reloc_F.cfg": dict(workers=4), "Reloc_G.cfg": dict(workers=1)}
         jobs.update({"Reloc_GA.cfg": dict(workers=1),
